@@ -523,6 +523,48 @@ pub fn send_logged(ctx: &Ctx, s: &mut TcpStream, bytes: &[u8], ev: Ev) -> std::i
     s.flush()
 }
 
+/// The inode of the socket LISTENing on `addr` (from /proc/net/tcp{,6}): identifies *this
+/// server's* listening socket.  After shutdown has finished it must be gone - whatever else has
+/// been given the port number meanwhile is another socket with another inode.
+pub fn listen_inode(addr: SocketAddr) -> Option<u64> {
+    let port = addr.port();
+    for (file, want_v6) in [("/proc/net/tcp", false), ("/proc/net/tcp6", true)] {
+        if addr.is_ipv6() != want_v6 {
+            continue;
+        }
+        let Ok(text) = std::fs::read_to_string(file) else { continue };
+        for line in text.lines().skip(1) {
+            let f: Vec<&str> = line.split_whitespace().collect();
+            if f.len() < 10 || f[3] != "0A" {
+                continue;
+            }
+            let Some((_, p)) = f[1].rsplit_once(':') else { continue };
+            if u16::from_str_radix(p, 16).ok() != Some(port) {
+                continue;
+            }
+            if let Ok(ino) = f[9].parse::<u64>() {
+                return Some(ino);
+            }
+        }
+    }
+    None
+}
+
+/// Is the listening socket with this inode still there (polled for up to `wait`)?
+pub fn listener_still_open(addr: SocketAddr, inode: Option<u64>, wait: Duration) -> bool {
+    let Some(ino) = inode else { return false };
+    let t0 = std::time::Instant::now();
+    loop {
+        if listen_inode(addr) != Some(ino) {
+            return false;
+        }
+        if t0.elapsed() >= wait {
+            return true;
+        }
+        std::thread::sleep(Duration::from_millis(50));
+    }
+}
+
 pub fn health(addr: SocketAddr) -> bool {
     match dsharness::server::roundtrip(addr, &get("/health"), false) {
         Some(r) => r.well_formed && r.status == 200 && r.body == b"healthy",
